@@ -605,8 +605,8 @@ func c14EVK(c *Ctx, set c14Set, n int, cfg c14Evk) {
 			return Mat(c14GRows(params, &shares[i].GadgetCiphertext, true, true))
 		})
 		es := c14ReadErrs(set, twins[i], lq, crpShape, 1)
-		c.Emit(fmt.Sprintf("evk_share %s %d %d %s %s %s %s %s %s", set.ringTok(lq, lp), in.sk[i].LevelQ(), out.sk[i].LevelQ(),
-			IVec(in.s[i]), IVec(out.s[i]), c14Shape(crpShape), a, c14IMat(es[0]), alloc), outTok)
+		c.Emit(fmt.Sprintf("evk_share %s %d %d %d %d %s %s %s %s %s %s", set.ringTok(lq, lp), in.sk[i].LevelQ(), out.sk[i].LevelQ(),
+			in.sk[i].LevelP(), out.sk[i].LevelP(), IVec(in.s[i]), IVec(out.s[i]), c14Shape(crpShape), a, c14IMat(es[0]), alloc), outTok)
 		c.Count("evk_share")
 		gs[i] = c14G(params, &shares[i].GadgetCiphertext, true, true)
 	}
@@ -707,13 +707,14 @@ func c14GAL(c *Ctx, set c14Set, n int, cfg c14Evk) {
 		} else {
 			es = c14ReadErrs(set, twins[i], lq, crpShape, 1)
 		}
-		c.Emit(fmt.Sprintf("gal_share %s %d %s %d %s %s %s %s", set.ringTok(lq, lp), keys.sk[i].LevelQ(),
-			IVec(keys.s[i]), galEl, c14Shape(crpShape), a, c14IMat(es[0]), alloc), outTok)
+		// the automorphed key lives in the protocol's buffer, allocated at the maximum levels
+		c.Emit(fmt.Sprintf("gal_share %s %d %d %d %d %s %d %s %s %s %s", set.ringTok(lq, lp), keys.sk[i].LevelQ(), set.maxQ(),
+			keys.sk[i].LevelP(), set.maxP(), IVec(keys.s[i]), galEl, c14Shape(crpShape), a, c14IMat(es[0]), alloc), outTok)
 		c.Count("gal_share")
 		gs[i] = c14GalG(params, &shares[i])
 	}
 	if panicked {
-		// GaloisKeyGenProtocol.GenShare panics when the key has no auxiliary modulus (levelP = -1)
+		// (before fixes/C14-2: GaloisKeyGenProtocol.GenShare panicked when the key has no auxiliary modulus)
 		if !c14Baseline(c, set, cfg) {
 			c.Count("key_works_skipped(single-party key unusable too):gal")
 			return
